@@ -247,6 +247,36 @@ func sameStringCells() []shape {
 	}}}
 }
 
+// An event type whose name depends on the value (a schema version carried in the event).
+type Versioned struct {
+	V int
+	N int
+}
+
+func (v Versioned) EventTypeName() string { return fmt.Sprintf("order.placed.v%d", v.V) }
+
+func valueNamedCells() []shape {
+	return []shape{{name: "event name depends on the value (version field), several values on one bus and on a second bus", run: func(route string) (out []string) {
+		if route != "stored-type" {
+			return nil
+		}
+		ms := eventbus.NewMemoryStore()
+		bus := eventbus.New(eventbus.WithStore(ms))
+		var want []string
+		for _, ev := range []Versioned{{1, 1}, {2, 2}, {2, 3}, {1, 4}} {
+			eventbus.Publish(bus, ev)
+			want = append(want, eventbus.EventType(ev))
+		}
+		bus2 := eventbus.New(eventbus.WithStore(ms))
+		eventbus.Publish(bus2, Versioned{3, 5})
+		want = append(want, "order.placed.v3")
+		if got := storedTypes(ms); fmt.Sprint(got) != fmt.Sprint(want) {
+			out = append(out, fmt.Sprintf("stored types %v, EventType reports %v for the published events", got, want))
+		}
+		return out
+	}}}
+}
+
 type cell struct {
 	Shape string `json:"shape"`
 	Route string `json:"route"`
@@ -263,7 +293,7 @@ func cells() []cell {
 }
 
 func allShapes() []shape {
-	return append(append(shapes(), extraCells()...), sameStringCells()...)
+	return append(append(append(shapes(), extraCells()...), sameStringCells()...), valueNamedCells()...)
 }
 
 func runCell(cl cell) []string {
@@ -329,7 +359,7 @@ func replay(c *h.Check, rf *h.ReplayFile) []vrt.Violation {
 
 func main() {
 	h.Main("C15", "exploration", []string{
-		"the space is finite and enumerated completely: 12 type shapes x 6 routes",
+		"the space is finite and enumerated completely: 13 type shapes x 6 routes",
 	}, run, replay, func(string) map[string]any {
 		return map[string]any{"rule": "complete cross product of event type shapes (plain / pointer / custom name on value receiver by value and by pointer / custom name on pointer receiver / state messages by value and pointer) and name-deriving APIs (persisted type, Replay+EventType, SubscribeWithReplay replay and live phase, RegisterUpcast source and target); every cell is distinct and non-trivial"}
 	})
